@@ -302,7 +302,10 @@ class DensityTauNative:
         eminus.config.verbose = "critical"
         rng = np.random.default_rng(seed)
         bad = []
-        for kset in (([[0.0, 0.0, 0.0], [0.2, 0.1, 0.05], [0.1, -0.3, 0.2]], [0.2, 0.3, 0.5]), ([[0.21, -0.13, 0.17]], [1.0])):
+        for kset in (([[0.0, 0.0, 0.0], [0.2, 0.1, 0.05], [0.1, -0.3, 0.2]], [0.2, 0.3, 0.5]), ([[0.21, -0.13, 0.17]], [1.0]),
+                     dict(kind="a 2x1x1 mesh with a shift (kpts.kshift)", kmesh=[2, 1, 1], kshift=[0.1, 0.05, 0.2]),
+                     dict(kind="a single shifted mesh point", kmesh=[1, 1, 1], kshift=[0.15, -0.1, 0.05]),
+                     dict(kind="37 states per k-point and spin", states=37), dict(kind="45 states per k-point and spin", states=45)):
             bad += self.one(seed, kset, Atoms, xp, orth, get_n_spin, get_n_total, get_n_single, get_tau, get_Ekin)
         return bad
 
@@ -310,8 +313,21 @@ class DensityTauNative:
         """One k-point set: three weighted k-points, or ONE k-point that is not Gamma."""
         rng = np.random.default_rng(seed)
         at = Atoms("He2", [[0.1, 0.2, 0.3], [0.3, 0.1, 3.4]], ecut=3, a=[[6.0, 0.3, 0.1], [0.2, 6.5, 0.4], [0.5, 0.1, 7.0]], unrestricted=True)
-        at.set_k(*kset)
+        if isinstance(kset, dict):
+            label = kset["kind"]
+            if "kmesh" in kset:
+                at.kpts.kmesh = kset["kmesh"]
+                at.kpts.kshift = kset["kshift"]
+            if "states" in kset:
+                # more states than any block size an implementation might use internally (smearing makes every band a state)
+                at.occ.smearing = 0.01
+                at.occ.bands = kset["states"]
+        else:
+            label = f"{len(kset[1])} k-point(s) set by set_k"
+            at.set_k(*kset)
         at.build()
+        if isinstance(kset, dict) and "states" in kset and at.occ.Nstate != kset["states"]:
+            raise RuntimeError("harness: the requested number of states was not set up")
         W = [xp.asarray(rng.standard_normal((2, len(at.Gk2c[ik]), at.occ.Nstate)) + 1j * rng.standard_normal((2, len(at.Gk2c[ik]), at.occ.Nstate))) for ik in range(at.kpts.Nk)]
         Y = orth(at, W)
         bad = []
@@ -326,7 +342,7 @@ class DensityTauNative:
                        total_vs_single=float(np.abs(nt - n1.sum(axis=(0, 2))).max()), electrons=float(abs(nt.sum() * at.dV - nel)),
                        negative_tau=float(max(0.0, -tau.min())), tau_integral_vs_Ekin=float(abs(tau.sum() * at.dV - ekin) / abs(ekin)))
             if max(err.values()) > 1e-9:
-                bad.append(dict(stage=stage, k_points=len(kset[1]), **err))
+                bad.append(dict(stage=stage, k_points=label, **err))
 
         f0 = rng.uniform(0.1, 1.0, np.shape(at.occ.f))
         f0[0, 0, 0] = 0.0
